@@ -59,12 +59,37 @@ def _c01() -> List[Obl]:
     for fn in ("lemma_history", "lemma_prefix", "lemma_flush_idempotent"):
         out.append(Obl(id=f"c01.{fn}", prop="C01", engine="verus", target=f"history:{fn}", fns=[],
                        note="pure lemma: the per-operation contracts compose over every history and every prefix of it"))
-    out += _verus_writer_unary("C01")
+    out += _verus_writer_unary("C01") + _verus_writer_bits("C01")
     return out
 
 
 WU_LEMMAS = ("lemma_wbit", "lemma_push", "lemma_full_pending", "lemma_be_append_unary", "lemma_be_shift_out", "lemma_be_one_is_unary",
              "lemma_le_append_unary", "lemma_le_shift_out", "lemma_le_top_is_unary", "lemma_zero_word", "lemma_zeros_unary")
+
+
+WB_LEMMAS = ("lemma_bit_of", "lemma_trunc_bits", "lemma_ext_bits", "lemma_or_bits", "lemma_low_mask", "lemma_shl_bits", "lemma_shl1_bits", "lemma_shr64_bits",
+             "lemma_top_of_field", "lemma_be_wb_easy", "lemma_be_wb_fill", "lemma_be_wb_mid", "lemma_be_wb_tail", "lemma_subrange_step", "lemma_shr_bits",
+             "lemma_shr1_bits", "lemma_shr64_1_bits", "lemma_le_wb_easy", "lemma_le_wb_fill", "lemma_le_wb_mid", "lemma_le_wb_tail", "lemma_be_flush", "lemma_le_flush")
+
+
+def _verus_writer_bits(prop: str) -> List[Obl]:
+    """BufBitWriter::write_bits and flush_be/flush_le in Verus (every value, width and Inv_W state), one unit per word type."""
+    out = []
+    pl = prop.lower()
+    for w in WWORDS:
+        unit = f"writer_bits@W={w};BITS={w[1:]}"
+        for el, E in ENDIANS:
+            out.append(Obl(id=f"{pl}.verus.write_bits.{E}.{w}", prop=prop, engine="verus", target=f"{unit}:write_bits_{el}",
+                           fns=[f"BufBitWriter<{E},_<{w}>>::write_bits"],
+                           note="real text, WW::Word instantiated; every value (dirty or clean), every n in 0..=64, every Inv_W state; default configuration"))
+            out.append(Obl(id=f"{pl}.verus.flush.{E}.{w}", prop=prop, engine="verus", target=f"{unit}:flush_{el}",
+                           fns=[f"impls::buf_bit_writer::flush_{el} (flush, drop, into_inner of BufBitWriter<{E},_<{w}>>)"],
+                           note="pending bits delivered padded with zeros to a whole word; nothing delivered when nothing is pending"))
+        for l in WB_LEMMAS:
+            out.append(Obl(id=f"{pl}.verus.write_bits.{l}.{w}", prop=prop, engine="verus", target=f"{unit}:{l}", fns=[]))
+        out.append(Obl(id=f"{pl}.std_spec.rotate_right.{w}", prop=prop, engine="kani", target=f"obl_stdspec::std_spec_rotate_right_{w}", fns=[f"{w}::rotate_right"],
+                       note="discharges the rotate_right axiom of the Verus unit"))
+    return out
 
 
 def _verus_writer_unary(prop: str) -> List[Obl]:
